@@ -167,7 +167,7 @@ func init() {
 	})
 	eng.Register(&eng.Scenario{
 		Name: "commonprefix", Props: []string{"C19"}, NoRace: true,
-		Doc: "commonprefix: every tuple of 1..3 strings of length <=3 over the bytes {a, b, 0xC3, 0xA9, 0x80} (plus the empty tuple): Prefix equals the byte-wise longest common prefix, TrimPrefix removes exactly it",
+		Doc: "commonprefix: every tuple of 1..3 strings of length <=3 over the bytes {a, b, 0xC3, 0xA9, 0x80} (plus the empty tuple, plus unsorted 10-tuples sharing a prefix): Prefix leaves its arguments alone and equals the byte-wise longest common prefix, TrimPrefix removes exactly it",
 		Direct: func(rep *eng.DirectReport, shard, nshards int, thorough bool) {
 			alpha := []byte{'a', 'b', 0xC3, 0xA9, 0x80}
 			maxLen := 3
@@ -197,6 +197,10 @@ func init() {
 				}
 				if got != want {
 					rep.Fail("C19.prefix", fmt.Sprintf("Prefix = %q, longest common prefix is %q", got, want), in)
+					return
+				}
+				if now := fmt.Sprintf("%q", strs); now != in {
+					rep.Fail("C19.prefix", fmt.Sprintf("Prefix changed its arguments (the caller's slice) to %s", now), in)
 					return
 				}
 				cp := append([]string{}, strs...)
@@ -231,6 +235,15 @@ func init() {
 						idx++
 					}
 				}
+			}
+			// long argument lists (10 strings, not in sorted order) sharing a prefix
+			for i := 0; i < len(all); i += 5 {
+				var t []string
+				for j := 9; j >= 0; j-- {
+					t = append(t, "\xc3"+all[i]+all[(i+j*11)%len(all)])
+				}
+				check(idx, t)
+				idx++
 			}
 		},
 	})
